@@ -32,6 +32,7 @@ structure Ops (α : Type) where
   isZero : α → Bool          -- `x == 0`
   pow : α → α → α            -- `x ** y`
   toRat : α → Rat            -- exact value (`Decimal(x)`)
+  isFinite : α → Bool        -- `math.isfinite(x)`: false for NaN and the infinities (every rational is finite)
 
 /-- `PoolConfig` -/
 structure Config (α : Type) where
@@ -253,20 +254,23 @@ def outputAmount (o : Ops α) (cfg : Config α) (ps : Pool α) (gm : α) : Excep
          gmUsd := gm * gmPrice, longFee := lFee, shortFee := sFee, feeUsd := lFee * ps.longPrice + sFee * ps.shortPrice,
          priceImpactUsd := 0 }
 
-/-- `GmxV2Market.deposit` (after the repair: argument check, pricing, both wallet debits — the first is given back when
-    the second fails — and only then the holding and the log) -/
+/-- `GmxV2Market.deposit`; `allowNeg` is `broker.allow_negative_balance` (default `False`: the setting the value theorems
+    are about; with `True` a debit never fails and a missing wallet entry is created).  (After the repairs: finiteness check — NaN compares false with everything and would pass the sign
+    checks —, sign check, pricing, both wallet debits — the first is given back when the second fails — and only then the
+    holding and the log.) -/
 def deposit (o : Ops α) (cx : NumCtx) (cfg : Config α) (ps : Pool α) (longKey shortKey : String)
-    (s : State α) (longAmt shortAmt : α) : Except Err (LPResult α × String) × State α :=
+    (s : State α) (longAmt shortAmt : α) (allowNeg : Bool := false) : Except Err (LPResult α × String) × State α :=
+  if !(o.isFinite longAmt && o.isFinite shortAmt) then (.error .demeter, s) else
   if longAmt < 0 ∨ shortAmt < 0 then (.error .demeter, s) else
   match mintAmount o cfg ps longAmt shortAmt with
   | .error e => (.error e, s)
   | .ok (r, tag) =>
     let longBalance := AList.get? s.wallet longKey
-    match Wallet.debit cx s.wallet longKey (o.toRat r.longAmount) false with
+    match Wallet.debit cx s.wallet longKey (o.toRat r.longAmount) allowNeg with
     | .error .insufficient => (.error .assertion, s)
     | .error .unknownToken => (.error .demeter, s)
     | .ok w1 =>
-      match Wallet.debit cx w1 shortKey (o.toRat r.shortAmount) false with
+      match Wallet.debit cx w1 shortKey (o.toRat r.shortAmount) allowNeg with
       | .error e =>
         let w := match longBalance with
           | some b => AList.set w1 longKey b
@@ -279,6 +283,7 @@ def deposit (o : Ops α) (cx : NumCtx) (cfg : Config α) (ps : Pool α) (longKey
 def withdraw (o : Ops α) (cx : NumCtx) (cfg : Config α) (ps : Pool α) (longKey shortKey : String)
     (s : State α) (amount? : Option α) : Except Err (LPResult α) × State α :=
   let amount := amount?.getD s.amount
+  if !o.isFinite amount then (.error .demeter, s) else
   if amount < 0 then (.error .demeter, s) else
   if amount > s.amount then (.error .demeter, s) else
   match outputAmount o cfg ps amount with
@@ -299,12 +304,13 @@ def balance (o : Ops α) (ps : Pool α) (s : State α) : Except Err (α × α ×
 end
 
 /-- exact rational instantiation; `pw` is the power function (an oracle: the theorems hold for every `pw`) -/
-def ratOps (pw : Rat → Rat → Rat) : Ops Rat := { isZero := fun x => decide (x = 0), pow := pw, toRat := id }
+def ratOps (pw : Rat → Rat → Rat) : Ops Rat := { isZero := fun x => decide (x = 0), pow := pw, toRat := id, isFinite := fun _ => true }
 
 /-- IEEE binary64 instantiation used by the driver -/
 def floatOps : Ops Float :=
   { isZero := fun x => x == 0.0,
     pow := Float.pow,        -- C `pow` of the platform libm, the call CPython's `float ** y` makes; `x ** 2` is not always `x * x` (glibc pow: < 1 ULP, not correctly rounded)
-    toRat := fun x => (floatToRat? x).getD 0 }
+    toRat := fun x => (floatToRat? x).getD 0,
+    isFinite := Float.isFinite }
 
 end Demeter.GmxV2
